@@ -3,6 +3,7 @@
 package gen4
 
 import (
+	"bytes"
 	"math/rand/v2"
 	"net"
 
@@ -22,7 +23,43 @@ var BoundaryLens = func() []int {
 	return l
 }()
 
+// Text: n octets of printable ASCII the way clients and servers write their strings: bare, or ended by one or
+// several NULs, a blank or a line end, now and then with a NUL in front or in the middle.
+// options whose value is text (RFC 2132 strings, class identifiers, the RFC 3004/4578/5970-style names ...)
+var textCodes = []byte{12, 14, 15, 17, 18, 40, 47, 56, 60, 62, 64, 66, 67, 86, 87, 98, 100, 101, 114, 12, 15, 66, 67}
+
+func Text(r *rand.Rand, n int) []byte {
+	b := make([]byte, n)
+	words := "DESKTOP-4F2K9 example.org /tftpboot/pxelinux.0 MSFT 5.0 udhcp 1.36.1 android-dhcp-13 host_7 "
+	off := r.IntN(len(words))
+	for i := range b {
+		if r.IntN(2) == 0 {
+			b[i] = words[(off+i)%len(words)]
+		} else {
+			b[i] = byte(0x20 + r.UintN(0x5f))
+		}
+	}
+	tail := []string{"", "\x00", "\x00\x00\x00", " ", "\r\n", "\n", "\x00 ", ".", "\t"}[r.IntN(9)]
+	if len(tail) < n {
+		copy(b[n-len(tail):], tail)
+	}
+	if n > 2 {
+		switch r.IntN(12) {
+		case 0:
+			b[0] = 0
+		case 1:
+			b[r.IntN(n)] = 0
+		case 2:
+			b[0] = ' '
+		}
+	}
+	return b
+}
+
 func Bytes(r *rand.Rand, n int) []byte {
+	if r.IntN(8) == 0 {
+		return Text(r, n)
+	}
 	b := make([]byte, n)
 	mode := r.IntN(4)
 	if n > 255 && r.IntN(5) == 0 {
@@ -178,6 +215,8 @@ func Packet(r *rand.Rand, maxOpts int) (*dhcpv4.DHCPv4, *ref4.P4) {
 			code = 82
 		case 1:
 			code = []byte{53, 61, 55, 54, 50, 51, 1, 3, 6, 119, 121, 254, 1}[r.IntN(13)]
+		case 2:
+			code = textCodes[r.IntN(len(textCodes))]
 		default:
 			code = byte(1 + r.UintN(254))
 		}
@@ -189,6 +228,9 @@ func Packet(r *rand.Rand, maxOpts int) (*dhcpv4.DHCPv4, *ref4.P4) {
 			}
 		}
 		v := Bytes(r, l)
+		if bytes.IndexByte(textCodes, code) >= 0 && r.IntN(3) != 0 {
+			v = Text(r, l)
+		}
 		if l == 0 && r.IntN(2) == 0 {
 			v = nil
 		}
